@@ -499,4 +499,142 @@ def functionalize3 (fuel : Nat) (pass : Nat → World → List Edit3) (m : Nat) 
   | (.ok m', w1) => (.ok m', (runHistory3 (pass m' w1) w1).2)
   | (.error e, w1) => (.error e, w1)
 
+/-! ### round 4: the cloners' final value maps of `Function.clone` / `Model.clone`, hooks of the pass
+infrastructure -/
+
+/-- the body of `Function.clone` (`_core.py`) under its cloner: `funcClone = withFreshMap funcCloneCore`
+    by definition, so the state it ends in holds the cloner's FINAL value map -/
+def funcCloneCore (fuel f : Nat) : M Nat := do
+  let fs ← readFunc f
+  let g' ← cloneGraph false fuel fs.graph
+  let attrs ← mapM' (fun ka => do
+      let as ← readAttr ka.2
+      cloneAttr (cloneGraph false fuel) as.name ka.2) fs.attrs
+  alloc (.func { domain := fs.domain, name := fs.name, overload := fs.overload, graph := g',
+                 attrs := dictOf attrs })
+
+/-- `m` under a fresh cloner (`withFreshMap`), also returning that cloner's final value map -/
+def withFreshMapVm (m : M α) : M (α × List (Nat × Nat)) := fun s =>
+  match m { s with vm := [], pend := [], created := [] } with
+  | (.ok a, s') => (.ok (a, s'.vm), { s' with vm := s.vm, pend := s.pend, created := s.created })
+  | (.error e, s') => (.error e, { s' with vm := s.vm, pend := s.pend, created := s.created })
+
+/-- `Model.clone` (`modelClone`) step by step, with the final value map of every cloner it makes
+    (main graph first, then one per function); the driver checks on every request that clone and heap
+    are those of `modelClone` -/
+def modelCloneTrace (fuel : Nat) (m : Nat) : M (Nat × List (List (Nat × Nat))) := do
+  let ms ← readModel m
+  let g ← withFreshMapVm (cloneGraph false fuel ms.graph)
+  let fs ← mapM' (fun f => withFreshMapVm (funcCloneCore fuel f)) ms.funcs
+  let props ← copyProps ms.props
+  let mstore ← alloc (.dict {})
+  let m' ← alloc (.model { graph := g.1, funcs := fs.map (·.1), header := ms.header, dev := ms.dev,
+                           props := props, mstore := mstore })
+  pure (m', g.2 :: fs.map (·.2))
+
+/-- `requires(model)` / `ensures(model)` of a pass (`PassBase`, `passes/_pass_infra.py`): user code
+    that is handed the model.  Whatever it does to the model is a history of editing calls (a
+    well-behaved hook performs none); then it returns or raises. -/
+structure Hook where
+  edits : Nat → World → List Edit2
+  raises : Nat → World → Bool
+
+/-- a pass with its hooks and the `modified` flag it reports in its `PassResult` -/
+structure PassH where
+  decl : Decl
+  requires : Hook
+  stage : Stage
+  ensures : Hook
+  modified : Nat → World → Bool
+
+/-- a hook call inside `PassBase.__call__`: an exception becomes `PreconditionError` /
+    `PostconditionError`; the heap keeps what the hook did -/
+def runHook (why : String) (h : Hook) (m : Nat) (w : World) : Except Err Unit × World :=
+  if h.raises m w then (.error (.raised why), (runHistory2 (h.edits m w) w).2)
+  else (.ok (), (runHistory2 (h.edits m w) w).2)
+
+/-- `call(model)` of one stage -/
+def stageCall (st : Stage) (m : Nat) (w : World) : Except Err Nat × World :=
+  match st with
+  | .inPlace edits => (.ok m, (runHistory2 (edits m w) w).2)
+  | .rewrap edits header => run (rewrapModel header m) (runHistory2 (edits m w) w).2
+
+/-- `PassBase.__call__`: `requires(model)`, `call(model)`, `ensures(result.model)`, then the checks
+    of the declared `in_place` against the identity of the returned model -/
+def callPassH (p : PassH) (m : Nat) (w : World) : Except Err (Nat × Bool) × World :=
+  match runHook "PreconditionError" p.requires m w with
+  | (.error e, w1) => (.error e, w1)
+  | (.ok _, w1) =>
+    match stageCall p.stage m w1 with
+    | (.error e, w2) => (.error e, w2)
+    | (.ok m1, w2) =>
+      match runHook "PostconditionError" p.ensures m1 w2 with
+      | (.error e, w3) => (.error e, w3)
+      | (.ok _, w3) =>
+        match callChecked p.decl m (.ok m1, w3) with
+        | (.ok m2, w4) => (.ok (m2, p.modified m w1), w4)
+        | (.error e, w4) => (.error e, w4)
+
+/-- `Sequential.call`: `model = pass_result.model; modified = modified or pass_result.modified` -/
+def runStagesH : List PassH → Nat → Bool → World → Except Err (Nat × Bool) × World
+  | [], m, md, w => (.ok (m, md), w)
+  | p :: rest, m, md, w =>
+    match callPassH p m w with
+    | (.ok r, w1) => runStagesH rest r.1 (md || r.2) w1
+    | (.error e, w1) => (.error e, w1)
+
+/-- `PassManager.call`: up to `steps` rounds; `if not modified and self.early_stop: break` -/
+def runRoundsH (ps : List PassH) (earlyStop : Bool) : Nat → Nat → Bool → World → Except Err (Nat × Bool) × World
+  | 0, m, md, w => (.ok (m, md), w)
+  | k + 1, m, md, w =>
+    match runStagesH ps m false w with
+    | (.ok r, w1) =>
+      if !r.2 && earlyStop then (.ok (r.1, md || r.2), w1)
+      else runRoundsH ps earlyStop k r.1 (md || r.2) w1
+    | (.error e, w1) => (.error e, w1)
+
+def seqDeclH (ps : List PassH) : Decl :=
+  { inPlace := ps.all (·.decl.inPlace),
+    changesInput := match ps with
+      | [] => false
+      | p :: _ => p.decl.changesInput || p.decl.inPlace }
+
+/-- `functionalize(P)(model)` for `P = Sequential(*passes)` (`steps = 1`) or
+    `PassManager(passes, steps, early_stop)`, every pass and the pipeline object itself with
+    `requires` / `ensures` hooks.  `_FunctionalPassWrapper` (a private class: its own hooks are the
+    no-op defaults) clones the model and calls `P` on the clone: `P.requires(clone)`, the rounds,
+    `P.ensures(result.model)`, the identity checks of `P` and of the wrapper. -/
+def functionalizeHooks (fuel : Nat) (ps : List PassH) (outerReq outerEns : Hook) (steps : Nat)
+    (earlyStop : Bool) (m : Nat) (w : World) : Except Err Nat × World :=
+  match run (modelClone fuel m) w with
+  | (.error e, w1) => (.error e, w1)
+  | (.ok m', w1) =>
+    match runHook "PreconditionError" outerReq m' w1 with
+    | (.error e, w2) => (.error e, w2)
+    | (.ok _, w2) =>
+      match runRoundsH ps earlyStop steps m' false w2 with
+      | (.error e, w3) => (.error e, w3)
+      | (.ok r, w3) =>
+        match runHook "PostconditionError" outerEns r.1 w3 with
+        | (.error e, w4) => (.error e, w4)
+        | (.ok _, w4) => callChecked ⟨false, false⟩ m (callChecked (seqDeclH ps) m' (.ok r.1, w4))
+
+/-- every pointer field of a cell that the cloner / the scope walker follows -/
+def Cell.ptrs : Cell → List Nat
+  | .val v => v.type.toList ++ v.shape.toList ++ [v.props, v.mstore]
+  | .node n => n.inputs.filterMap id ++ n.outputs ++ n.attrs.map (·.2) ++ [n.props, n.mstore]
+  | .graph g => g.inputs ++ g.outputs ++ g.inits.map (·.2) ++ g.nodes ++ [g.props, g.mstore]
+  | .attr a => match a.v with
+    | .graph g => [g]
+    | .graphs gs => gs
+    | _ => []
+  | .func f => f.graph :: f.attrs.map (·.2)
+  | .model m => m.graph :: m.funcs ++ [m.props, m.mstore]
+  | _ => []
+
+/-- no pointer field of any cell dangles (true of every heap abstracted from live Python objects;
+    stronger than `wellFormed2` on the fields `followed` / `followed2` do not list: node lists,
+    attribute objects and the graphs they hold, function and model fields) -/
+def closedW (w : World) : Bool := w.all fun c => c.ptrs.all (· < w.length)
+
 end IrVerif.Clone
